@@ -245,6 +245,46 @@ def check_structured(col, n, p):
     col.sample({"n": n, "p": p, "structured_cells": len(cells), "structured_distances": len(hs)})
 
 
+INTERP_SCRIPT = r"""
+import json, sys
+sys.path[:0] = [sys.argv[1], sys.argv[2]]
+from vf import core
+from vf.checks import c07
+col = core.Collector()
+for n, pm in ((1, 13), (2, 6), (3, 4)):
+    for p in range(1, pm + 1):
+        r = c07.check_exhaustive(col, n, p, scalar=(n * p <= 8))
+        if p >= 2 and r is not None:
+            c07.check_refinement(col, n, p - 1, r[0], r[1])
+for n, p in ((2, 31), (1, 62), (3, 8), (2, 17), (1, 33)):
+    c07.check_structured(col, n, p)
+print("DUMP" + json.dumps(col.dump(), default=str))
+"""
+
+
+def check_interpreted(col):
+    """the same clauses with numba's JIT switched off (NUMBA_DISABLE_JIT=1: the kernels run as plain Python/NumPy code,
+    whose integer promotion rules differ from the compiled ones), in a separate process"""
+    import os
+    import subprocess
+    import sys
+    env = dict(os.environ, NUMBA_DISABLE_JIT="1")
+    repo = os.environ.get("VERIF_REPO", "/repo")
+    verif = os.path.dirname(os.path.dirname(os.path.dirname(os.path.abspath(__file__))))
+    r = subprocess.run([sys.executable, "-c", INTERP_SCRIPT, repo, verif], env=env, capture_output=True, text=True, timeout=1500)
+    line = next((ln for ln in r.stdout.splitlines() if ln.startswith("DUMP")), None)
+    if line is None:
+        col.violation("interpreted.raises", {"mode": "interpreted"}, f"NUMBA_DISABLE_JIT=1 run failed: {r.stderr[-400:]}")
+        return
+    import json
+    d = json.loads(line[4:])
+    for v in d["violations"]:
+        v["case"] = dict(v["case"], interpreted=True)
+        v["tags"]["site"] = "interpreted." + v["tags"]["site"]
+    col.merge(d)
+    col.count("interpreted_mode_evaluations", d["counters"].get("evaluations", 0))
+
+
 def plan(ctx):
     T = ctx.thorough
     units = []
@@ -273,9 +313,13 @@ def run(ctx):
         hc.coordinate_from_distance(2, n, 1)
     units, ex = plan(ctx)
 
+    units.insert(0, ("interp", 0, 0))
+
     def work(col, i):
         mode, n, p = units[i]
-        if mode == "ex":
+        if mode == "interp":
+            check_interpreted(col)
+        elif mode == "ex":
             r = check_exhaustive(col, n, p, scalar=(n * p <= 12))
             if p >= 2 and r is not None:
                 check_refinement(col, n, p - 1, r[0], r[1])
@@ -296,6 +340,9 @@ def run(ctx):
 
 def replay(ctx, case):
     col = core.Collector()
+    if case.get("interpreted") or case.get("mode") == "interpreted":
+        check_interpreted(col)
+        return col.violations
     if case["mode"] == "structured":
         check_structured(col, case["n"], case["p"])
     elif case["mode"] == "refine":
